@@ -95,7 +95,7 @@ theorem exportDrop_spec (k k' : KV) (t : Table) (w : k.WF) (he : k.exportDrop = 
         have hu := w.unique
         unfold Unique newestFirst at hu
         simp only [hh, Option.toList, List.cons_append, List.nil_append, List.pairwise_cons] at hu
-        refine ⟨⟨w.recEmpty, ?_, (by intro t ht; cases ht), w.oldNotRW, ?_, w.recOff, ?_, ?_, ?_, ?_⟩, rfl,
+        refine ⟨⟨w.recEmpty, ?_, (by intro t ht; cases ht), w.oldNotRW, ?_, w.recOff, ?_, ?_, ?_, ?_, ?_⟩, rfl,
           (by simp [newestFirst, hh]), ?_, ?_⟩
         · simp only [Unique, newestFirst, Option.toList, List.nil_append]; exact hu.2
         · intro t ht; exact w.alloc t (by simp only [newestFirst, Option.toList, List.nil_append] at ht; simp [newestFirst, ht])
@@ -103,6 +103,7 @@ theorem exportDrop_spec (k k' : KV) (t : Table) (w : k.WF) (he : k.exportDrop = 
         · intro t ht; exact w.acct t (by simp only [newestFirst, Option.toList, List.nil_append] at ht; simp [newestFirst, ht])
         · intro t ht; exact w.fits t (by simp only [newestFirst, Option.toList, List.nil_append] at ht; simp [newestFirst, ht])
         · intro t ht; exact w.tot t (by simp only [newestFirst, Option.toList, List.nil_append] at ht; simp [newestFirst, ht])
+        · intro t ht; exact w.layout t (by simp only [newestFirst, Option.toList, List.nil_append] at ht; simp [newestFirst, ht])
         · intro h s hs
           have := findIn_none_of_disj hd k.old h hu.1 (by simp [hs])
           constructor
